@@ -245,6 +245,55 @@ static uint64_t converting (uint64_t seed, bool trace)
   return d.h;
 }
 
+// F6: move-only element type whose move operations are potentially throwing, with std::allocator
+// (std::vector accepts every call below under every standard)
+#ifndef XSTD_NO_F6
+struct MoveOnlyT
+{
+  int v;
+  MoveOnlyT () : v (0) { }
+  MoveOnlyT (int x) : v (x) { }
+  MoveOnlyT (MoveOnlyT&& o) noexcept (false) : v (o.v) { o.v = -1; }
+  MoveOnlyT& operator= (MoveOnlyT&& o) noexcept (false) { v = o.v; o.v = -1; return *this; }
+  MoveOnlyT (const MoveOnlyT&) = delete;
+  MoveOnlyT& operator= (const MoveOnlyT&) = delete;
+};
+inline int val (const MoveOnlyT& t) { return t.v; }
+
+static uint64_t moveonly_family (uint64_t seed, bool trace)
+{
+  Rng rng (seed);
+  Digest d; d.trace = trace;
+  gch::small_vector<MoveOnlyT, 2> a;
+  gch::small_vector<MoveOnlyT, 5> b;
+  int next = 1;
+  for (int i = 0; i < 40; ++i)
+  {
+    const int op = static_cast<int> (rng.below (12));
+    const unsigned n = static_cast<unsigned> (a.size ());
+    const unsigned pos = n ? static_cast<unsigned> (rng.below (n + 1)) : 0;
+    switch (op)
+    {
+      case 0: a.emplace_back (next++); break;
+      case 1: a.push_back (MoveOnlyT (next++)); break;
+      case 2: a.reserve (static_cast<unsigned> (rng.below (24))); break;
+      case 3: a.shrink_to_fit (); break;
+      case 4: { gch::small_vector<MoveOnlyT, 2>::iterator it = a.insert (a.begin () + pos, MoveOnlyT (next++)); d.add (it - a.begin ()); break; }
+      case 5: { gch::small_vector<MoveOnlyT, 2>::iterator it = a.emplace (a.begin () + pos, next++); d.add (it - a.begin ()); break; }
+      case 6: if (n) a.erase (a.begin () + (pos < n ? pos : n - 1)); break;
+      case 7: a.resize (static_cast<unsigned> (rng.below (9))); break;
+      case 8: b.assign (std::move (a)); a.clear (); break;
+      case 9: a.assign (std::move (b)); b.clear (); break;
+      case 10: { gch::small_vector<MoveOnlyT, 2> t; t.emplace_back (next++); t.emplace_back (next++); t.emplace_back (next++); a.swap (t); break; }
+      default: if (n) a.pop_back (); break;
+    }
+    d.mark ("a"); observe (d, a);
+    d.mark ("b"); observe (d, b);
+  }
+  return d.h;
+}
+#endif
+
 int main (int argc, char **argv)
 {
   setvbuf (stdout, 0, _IOLBF, 0);
@@ -335,6 +384,14 @@ int main (int argc, char **argv)
     h = converting (hs + 9, tr);
     if (tr) std::printf ("\n");
     std::printf ("{\"type\":\"digest\",\"id\":\"%s\",\"family\":\"converting\",\"h\":\"%016llx\"}\n", id, static_cast<unsigned long long> (h));
+#ifndef XSTD_NO_F6
+    std::snprintf (id, sizeof id, "%d.m", i);
+    tr = trace && ! std::strcmp (trace, id);
+    if (tr) std::printf ("TRACE %s", id);
+    h = moveonly_family (hs + 11, tr);
+    if (tr) std::printf ("\n");
+    std::printf ("{\"type\":\"digest\",\"id\":\"%s\",\"family\":\"move-only/std\",\"h\":\"%016llx\"}\n", id, static_cast<unsigned long long> (h));
+#endif
   }
 #endif
   std::printf ("{\"type\":\"done\",\"chunks\":1,\"deaths\":0}\n");
